@@ -524,7 +524,7 @@ CallUser(fname, args, st) ==
   LET fd == FuncByName(st.funcs, fname)
       b == BindArgs(fd.params, args, 1, EmptyFn, st, 0)
   IN IF ~Live(b[2]) THEN <<Null, b[2]>>
-     ELSE IF b[2].fuel <= 0 \/ Len(b[2].fr) >= 6 THEN <<Null, Halt(b[2], "bad")>>
+     ELSE IF b[2].fuel <= 0 \/ Len(b[2].fr) >= 60 THEN <<Null, Halt(b[2], "bad")>>
      ELSE LET s1 == [b[2] EXCEPT !.fr = Append(@, b[1]), !.fuel = @ - 1]
               s2 == ExecList(fd.body, s1)
               s3 == [s2 EXCEPT !.fr = SubSeq(@, 1, Len(@) - 1)]
